@@ -2,7 +2,11 @@
 (* Validation of executions recorded from the real code (free-running        *)
 (* writer and reader goroutines under -race, peer answering from inside the   *)
 (* transport write on a seeded fraction of requests).  Logged events:         *)
-(*   twrite(t)   the transport's Write was entered with request t's bytes     *)
+(*   twrite(t)   the transport's Write was entered with the bytes that        *)
+(*               COMPLETE request t in the transport (an independent chunk    *)
+(*               stream parser of the harness decides that; earlier writes    *)
+(*               of the same request are not logged, so the recorded runs     *)
+(*               are judged as Parts = 1 whatever the library's buffering)    *)
 (*   return(t)   WritePacket returned                                         *)
 (*   respond(t)  the peer's response was put on the wire                      *)
 (*   lookup(t,r) the reader's DecodeMessage of response t returned ok / fail  *)
@@ -16,6 +20,8 @@ EXTENDS RtmpTxnConc, Json
 
 TraceLog == ndJsonDeserialize("trace.ndjson")
 TraceReqs == [i \in 1..40 |-> i + 1]       \* every run sends transaction ids 2..41 in order
+TraceParts == [i \in 1..40 |-> 1]
+TraceRegAfter == [i \in 1..40 |-> 0]
 
 VARIABLE l
 tvars == <<vars, l>>
@@ -31,13 +37,19 @@ RespondEv == IsEvent("respond") /\ P_Respond(TraceLog[l].t)
 LookupEv  == /\ IsEvent("lookup") /\ rcur = TraceLog[l].t /\ R_Lookup
              /\ results'[Len(results')] = <<TraceLog[l].t, TraceLog[l].res>>
 ResetEv   == /\ IsEvent("reset")
-             /\ widx' = 1 /\ wpc' = "idle" /\ pending' = {} /\ written' = {}
-             /\ nresp' = [t \in Ids |-> 0] /\ inbox' = <<>> /\ rcur' = 0 /\ results' = <<>> /\ sched' = <<>>
+             /\ widx' = 1 /\ wpc' = "idle" /\ wparts' = 0 /\ wreg' = FALSE /\ pending' = {} /\ written' = {}
+             /\ nresp' = [t \in Ids |-> 0] /\ inbox' = <<>> /\ rcur' = 0 /\ rreset' = FALSE /\ results' = <<>> /\ sched' = <<>>
 
 TraceNext == Silent \/ TwriteEv \/ ReturnEv \/ RespondEv \/ LookupEv \/ ResetEv
 TraceSpec == TraceInit /\ [][TraceNext]_tvars
 
-TraceView == <<widx, wpc, pending, written, nresp, inbox, rcur, results, l>>
+\* NoSpurious and MatchOnce, stated on the result just appended (every result is the last one of some state, so checking
+\* them in every state is the same as RtmpTxnConc!NoSpurious /\ RtmpTxnConc!MatchOnce, at a cost linear in the run)
+Earlier == {k \in 1..(Len(results) - 1) : results[k][1] = results[Len(results)][1]}
+NoSpuriousLast == results # <<>> => (results[Len(results)][2] = "fail" => Earlier # {})
+MatchOnceLast  == results # <<>> => (results[Len(results)][2] = "ok" => Earlier = {})
+
+TraceView == <<widx, wpc, wparts, wreg, pending, written, nresp, inbox, rcur, rreset, results, l>>
 \* high-water mark of the consumed prefix (needs -workers 1)
 HighWater == IF l > TLCGet(1) THEN TLCSet(1, l) ELSE TRUE
 TraceAccepted == IF TLCGet(1) = Len(TraceLog) + 1 THEN TRUE
